@@ -16,11 +16,11 @@ PROPERTIES = {
 
 PROPERTIES.update({
     "C02": {
-        "verus": ["C02_C05_assembly"],
+        "verus": ["C02_C05_assembly", "C02_unnesting"],
         "kani_quick": [], "kani_thorough": [],
         "unverified": [
             "the left-to-right parse of component lists (nom combinators in lexer/sequence.rs, lexer/choice.rs)",
-            "emission of one field/variant per member, Option<_>, default fn, Box<_>, set marker, SetOf/SequenceOf selection (generator/rasn/utils.rs, builder.rs: TokenStream code)",
+            "emission of one field/variant per member, Option<_>, default fn, Box<_>, set marker, SetOf/SequenceOf selection (generator/rasn/utils.rs, builder.rs: TokenStream code); only the hoisting decision Rasn::needs_unnesting is under contract, with ASN1Type::constraints() left uninterpreted",
             "mark_recursive / recurses (validator/linking/mod.rs: iterator closures + BTreeMap)",
             "link_components_of_notation (appends the copied members at the end of the list)",
         ],
@@ -68,11 +68,11 @@ PROPERTIES.update({
     },
     "C07": {
         "verus": [],
-        "kani_quick": ["k_c07_hex_to_bools", "k_c07_octet_to_bits", "k_c07_bits_to_octets", "k_c07_well_known", "k_c07_well_known_negative"],
-        "kani_thorough": ["k_c07_bits_to_octets_long"],
-        "kani_bounded": {"k_c07_bits_to_octets": "bit-string lengths {0,1,7,8,9} with symbolic contents", "k_c07_bits_to_octets_long": "lengths {15,16,17,24}",
+        "kani_quick": ["k_c07_hex_to_bools", "k_c07_octet_to_bits", "k_c07_bits_to_octets", "k_c07_well_known", "k_c07_unknown_arc_names"],
+        "kani_thorough": ["k_c07_long_bits_to_octets"],
+        "kani_bounded": {"k_c07_bits_to_octets": "bit-string lengths {0,8,9} with symbolic contents", "k_c07_long_bits_to_octets": "lengths {1,7,15,16,17,24}",
                          "k_c07_octet_to_bits": "one octet at a time, all 256 values (complete per octet); slice length 1",
-                         "k_c07_well_known_negative": "a fixed list of 10 non-table names"},
+                         "k_c07_unknown_arc_names": "a fixed list of 10 non-table names"},
         "unverified": [
             "bit_string_value_from_named_bits (validator/linking/mod.rs:1616-1631): scans [DistinguishedValue] (Kani layout defect) with map/any/find_map closures (outside Verus)",
             "all literal parsing (nom: bstring/hstring/cstring/number/OID) and \"\" unescaping (str::replace)",
